@@ -159,7 +159,10 @@ class World(object):
         self.skipped = False
         kind = op[0]
         nerr0 = len([1 for lv, _ in self.options.logger.lines if lv == 'error'])
-        r = self._apply(op)
+        try:
+            r = self._apply(op)
+        except Exception as e:       # judged by the monitor: nothing may escape from these entry points
+            r = list(self.effs) + ['ERaise (* %s escaped from %s *)' % (type(e).__name__, kind)]
         nerr1 = len([1 for lv, _ in self.options.logger.lines if lv == 'error'])
         ndisc = len([1 for e in r if e.startswith(('EDiscard', 'EWriteError'))])
         self.discard_log_mismatch = (nerr1 - nerr0) != ndisc
